@@ -11,6 +11,8 @@ import (
 	"testing"
 
 	"github.com/libp2p/go-libp2p/core/crypto"
+	cryptopb "github.com/libp2p/go-libp2p/core/crypto/pb"
+	"google.golang.org/protobuf/proto"
 
 	"berty.tech/weshnet/v2/internal/zzverif/vrep"
 	"berty.tech/weshnet/v2/pkg/protocoltypes"
@@ -351,6 +353,24 @@ func TestVerifC11(t *testing.T) {
 		}},
 		imp{"valid", accB, proofB, false, mkFresh},
 	)
+	// the same key in both slots, written in two encodings (the 64-byte and the older 96-byte layout of an Ed25519
+	// private key: seed||public||public): still equal keys
+	{
+		legacy := func(blob []byte) []byte {
+			k := &cryptopb.PrivateKey{}
+			must(proto.Unmarshal(blob, k))
+			if len(k.Data) != 64 {
+				return nil
+			}
+			k.Data = append(append([]byte{}, k.Data...), k.Data[32:]...)
+			return mustBytes(proto.Marshal(k))
+		}
+		if l := legacy(accB); l != nil {
+			if _, err := crypto.UnmarshalPrivateKey(l); err == nil {
+				cases = append(cases, imp{"equal-keys-two-encodings", accB, l, true, mkFresh}, imp{"equal-keys-two-encodings-swapped", l, accB, true, mkFresh})
+			}
+		}
+	}
 	for cut := 0; cut < len(accB); cut++ {
 		cases = append(cases, imp{fmt.Sprintf("truncated-account@%d", cut), accB[:cut], proofB, true, mkFresh}, imp{fmt.Sprintf("truncated-proof@%d", cut), accB, proofB[:cut], true, mkFresh})
 	}
